@@ -68,10 +68,10 @@ PROPS["C15"] = dict(
                  "interleavings are explored at the granularity of the yield points (API calls, pool operations)"],
     tests=[dict(name="TestC15Coop", pkg="c15", race=True, params=dict(max_clients=6),
                 quick=dict(workers=16, checks=1500, steps=30, watchdog_s=900),
-                thorough=dict(workers=16, checks=60000, steps=30, watchdog_s=7200, max_clients=12)),
+                thorough=dict(workers=16, checks=30000, steps=30, watchdog_s=7200, max_clients=12)),
            dict(name="TestC15Coop", pkg="c15", race=False, mem_gb=8, params=dict(max_clients=6),
                 quick=dict(workers=16, checks=6000, steps=30, watchdog_s=900),
-                thorough=dict(workers=16, checks=400000, steps=30, watchdog_s=7200, max_clients=64))],
+                thorough=dict(workers=16, checks=100000, steps=30, watchdog_s=7200, max_clients=64))],
 )
 
 PROPS["C03"] = dict(
@@ -320,5 +320,5 @@ PROPS["C16"] = dict(
     assumptions=["an environment variable that is not in the drawn set, the host name and the process id are not controlled (the latter two differ between the helper and the process runs anyway)"],
     tests=[dict(name="TestC16Env", pkg="c16", race=False, mem_gb=16,
                 quick=dict(workers=16, checks=60, steps=1, watchdog_s=1500),
-                thorough=dict(workers=16, checks=4000, steps=1, watchdog_s=7200))],
+                thorough=dict(workers=16, checks=500, steps=1, watchdog_s=7200))],
 )
